@@ -821,7 +821,13 @@ func (r *Reader) FetchMessage(ctx context.Context) (Message, error) {
 	for {
 		r.mutex.Lock()
 
-		if !r.closed && r.version == 0 {
+		if r.closed {
+			// messages still buffered when the reader was closed are dropped.
+			r.mutex.Unlock()
+			return Message{}, io.EOF
+		}
+
+		if r.version == 0 {
 			r.start(r.getTopicPartitionOffset())
 		}
 
